@@ -34,6 +34,7 @@ claim("C03", "bit-provenance abstract interpretation of LEB128 readers and write
 claim("C04", "abstract interpretation of EncodedValue.__init__ per header byte (bit provenance) + binding and printing provenance",
       "For every (value_type, value_arg) header the constructor is interpreted over symbolic bytes: integers must be the little-endian value of exactly value_arg+1 bytes "
       "with the DEX-specified sign/zero extension, references must resolve the zero-extended index through the right ClassManager accessor, nested values parse from the same stream. "
+      "Two index-typed values of different kinds with the same index decoded with one real ClassManager object must each resolve through their own accessor. "
       "set_static_fields must bind value i to field i; ClassDefItem.reload is executed on two class definitions sharing one encoded_array_item (each class must end up bound); "
       "the conversion DvClass.get_source applies before printing is interpreted on the reader's abstract value.",
       "Trusted: agstatic bit domain; DEX encoded_value table in the rule (from the public format document). FLOAT/DOUBLE/METHOD_TYPE/METHOD_HANDLE not decided. "
